@@ -23,7 +23,7 @@ RULE = ('cases = generated graphs of 1-12 persistent nodes (Node, PersistentMapp
         'with every all-below-0x80 oid re-encoded as a Python 2 str (as ZODB 3 wrote them): referencesf/get_refs return the '
         'same ids as bytes, and the graph loads identically from a storage holding these records; evaluations = '
         'graphs; non-trivial = >= 3 nodes with sharing or a cycle and >= 1 reference inside a nested plain container; '
-        'distinct by case hash')
+        'distinct by case hash; later additions: three-database diamond, failed first attempt and retry with the same objects, plain objects of missing classes (empty and zero states included) rewritten as placeholders and loaded with the class back, weak cross-database references, connections reused after resetCaches()')
 ASSUMPTIONS = ['a weak reference to a new object causes it to be stored (documented in ObjectWriter.persistent_id)',
                'cross-database targets are committed in their own database before they are referenced']
 BUDGET = {'quick': {'examples': 12000, 'workers': 8},
